@@ -156,7 +156,7 @@ func H_C19_chain(nc, ns, nr int) {
 		k.expAttr = map[string]int{}
 		rec := vNewRec()
 		if i == 0 {
-			verifFrameBegin("dispatch", k)
+			verifFrameBegin("dispatch", k, rec)
 		}
 		c.Dispatch(rec, vReq{method: "GET", path: "/t/a"}.http())
 		if i == 0 {
